@@ -1375,4 +1375,5 @@ func runC11(c *core.Ctx) {
 	if c.OnlySub == "" || c.OnlySub == "S5-find-many-unions" {
 		c11FindManyUnions(c)
 	}
+	c11AlgebraHistories(c)
 }
